@@ -202,3 +202,16 @@ Proof.
   cbn [replace_sub_fuel]. destruct (0 <? max); [|now rewrite takeN_dropN].
   rewrite find_sub_short by (rewrite lenN_dropN; lia). now rewrite takeN_dropN.
 Qed.
+
+Lemma count_sub_fuel_le f rm l : count_sub_fuel f rm l * lenN rm <= lenN l.
+Proof.
+  revert l. induction f as [|f IH]; intros l; cbn [count_sub_fuel]; [lia|].
+  destruct (find_sub rm l) as [k|] eqn:F; [|lia].
+  destruct (find_sub_sound _ _ _ F) as [B _]. specialize (IH (dropN (k + lenN rm) l)).
+  rewrite lenN_dropN in IH. nia.
+Qed.
+Lemma l0_count_sub_le l rm from : l0_count_sub l rm from * lenN rm <= lenN l.
+Proof.
+  unfold l0_count_sub. destruct rm as [|a rm]; [lia|]. destruct (from <? lenN l); [|lia].
+  pose proof (count_sub_fuel_le (S (length l)) (a :: rm) (dropN from l)) as H. rewrite lenN_dropN in H. lia.
+Qed.
